@@ -536,4 +536,210 @@ Proof.
     + apply (under_all w w' x); auto. eapply under_trans; eauto.
 Qed.
 
+(* ---------- AutosarModel::create_file ---------- *)
+Lemma in_list_set {A} (l : list A) k v y : In y (list_set l k v) -> y = v \/ In y l.
+Proof.
+  revert k. induction l as [|a l IH]; intros [|k] H; cbn in *; auto.
+  - destruct H as [<-|H]; auto.
+  - destruct H as [<-|H]; auto. destruct (IH _ H); auto.
+Qed.
+Lemma list_set_in {A} (l : list A) k v x : nth_opt l k = Some x -> In v (list_set l k v).
+Proof. revert k. induction l as [|a l IH]; intros [|k] H; cbn in *; try discriminate; eauto. Qed.
+
+Lemma nodes_eff w w' i s : (forall j, w_nodes w' j = w_nodes w j) -> Eff w i s -> Eff w' i s.
+Proof.
+  intros H. induction 1 as [i n Hn Hf | i n p s Hn Hf Hp He IH].
+  - constructor; auto. rewrite H. exact Hn.
+  - eapply Eff_up; eauto. rewrite H. exact Hn.
+Qed.
+Lemma nodes_reach w w' r i : (forall j, w_nodes w' j = w_nodes w j) -> Reach w r i -> Reach w' r i.
+Proof.
+  intros H. induction 1 as [(n & Hn)|p c Hp IH (pn & Hpn & Hc)].
+  - constructor. exists n. rewrite H. exact Hn.
+  - eapply R_kid; eauto. exists pn. rewrite H. auto.
+Qed.
+
+(* the same nodes, a model record with the same root and a larger file list *)
+Lemma inv_more_files w w' x x' :
+  (forall j, w_nodes w' j = w_nodes w j) -> m_root x' = m_root x -> incl (m_files x) (m_files x') ->
+  (m_files x' <> [] -> m_files x <> []) -> FilesInvM T w x -> FilesInvM T w' x'.
+Proof.
+  intros Hn Hr Hi Hne [A B S D].
+  assert (forall j, w_nodes w j = w_nodes w' j) as Hn' by (intros j; symmetry; apply Hn).
+  assert (forall i, Reach w' (m_root x') i -> Reach w (m_root x) i) as RB by (intros i Hi'; rewrite <- Hr; eapply nodes_reach; eauto).
+  constructor.
+  - intros i n Hri Hi'. rewrite Hn in Hi'. eapply incl_tran; [eapply A; eauto|exact Hi].
+  - intros i n p Hri Hi' Hf Hp. rewrite Hn in Hi'. destruct (B i n p (RB _ Hri) Hi' Hf Hp) as (s & Hs & Hin).
+    exists s. split; auto. eapply nodes_eff; eauto.
+  - intros i n p pn Hri Hi' Hf Hp Hpn. rewrite Hn in Hi', Hpn. apply (S i n p pn); auto.
+  - intros Hf i Hri. destruct (D (Hne Hf) i (RB _ Hri)) as (s & Hs). exists s. eapply nodes_eff; eauto.
+Qed.
+
+(* with s = [] the loop over the children changes nothing when all of them have empty sets *)
+Lemma kids_loop_nil : forall l w r w',
+  (forall c cn, In c (elems l) -> w_nodes w c = Some cn -> n_files cn = []) ->
+  kids_loop [] l w = Val (r, w') -> w_next w' = w_next w /\ w_models w' = w_models w /\ w_files w' = w_files w /\ forall i, w_nodes w' i = w_nodes w i.
+Proof.
+  induction l as [|[c|d] l IH]; intros w r w' He H; cbn [kids_loop] in H.
+  - apply wret_inv in H as (_ & ->). auto.
+  - apply wbind_inv in H as [(u & w1 & H1 & H) | (e & H1 & _)]; [|apply modify_node_wset in H1 as (? & _ & [=] & _)].
+    apply modify_node_wset in H1 as (cn & Hcn & _ & ->).
+    assert (n_files cn = []) as Hf by (eapply He; eauto; cbn; auto).
+    assert ((if is_empty (n_files cn) then set_files cn [] else cn) = cn) as E.
+    { rewrite Hf. cbn. rewrite <- Hf at 1. apply set_files_eta. }
+    rewrite E in H. pose proof (weq_wset_same _ _ _ Hcn) as (N & M & F & Hn).
+    destruct (IH _ _ _ (fun c0 cn0 Hc0 Hcn0 => He c0 cn0 (or_intror Hc0) ltac:(rewrite <- Hn; exact Hcn0)) H) as (N2 & M2 & F2 & Hn2).
+    repeat split; try congruence.
+  - eapply IH; eauto.
+Qed.
+
+Lemma in_list_set_pos {A} (l : list A) k v y : In y (list_set l k v) -> y = v \/ exists j, j <> k /\ nth_error l j = Some y.
+Proof.
+  revert k. induction l as [|a l IH]; intros [|k] H; cbn in *; try tauto.
+  - destruct H as [<-|H]; auto. right. apply In_nth_error in H as (j & Hj). exists (S j). split; auto.
+  - destruct H as [<-|H]; [right; exists O; split; auto|].
+    destruct (IH _ H) as [->|(j & Hj & Hy)]; auto. right. exists (S j). split; auto.
+Qed.
+
+Lemma diff_pos_diff_root w j k y x : Core w -> nth_error (w_models w) j = Some y -> nth_error (w_models w) k = Some x ->
+  j <> k -> m_root y <> m_root x.
+Proof.
+  intros C Hy Hx Hne E.
+  assert (nth_error (roots w) j = Some (m_root y)) as R1 by (unfold roots; rewrite nth_error_map, Hy; reflexivity).
+  assert (nth_error (roots w) k = Some (m_root x)) as R2 by (unfold roots; rewrite nth_error_map, Hx; reflexivity).
+  destruct (c_roots _ C _ _ R1) as (n1 & Hn1 & Hp1). destruct (c_roots _ C _ _ R2) as (n2 & Hn2 & Hp2).
+  rewrite E in Hn1. assert (n1 = n2) by congruence. subst.
+  assert (N.of_nat j = N.of_nat k) as Ek by congruence. apply Nnat.Nat2N.inj in Ek. contradiction.
+Qed.
+
+Lemma under_all' w w' x : Core w -> In x (w_models w) -> Under w w' (m_root x) ->
+  (forall y, In y (w_models w) -> m_root y <> m_root x -> FilesInvM T w y) -> FilesInvM T w' x -> FilesInv T w'.
+Proof.
+  intros C Hx U FI FIx y Hy. rewrite (un_models _ _ _ U) in Hy.
+  destruct (N.eq_dec (m_root y) (m_root x)) as [E|Hne].
+  - assert (y = x) by (eapply same_root_same_model; eauto). subst. exact FIx.
+  - eapply under_other; eauto.
+Qed.
+
+Theorem create_file_inv m name version w r w' :
+  TreeInv w -> FilesInv T w -> m_create_file T m name version w = Val (r, w') -> FilesInv T w'.
+Proof.
+  intros TI FI H. pose proof TI as (C & _). unfold m_create_file in H.
+  apply wbind_inv in H as [(x & w1 & H1 & H) | (e0 & H1 & _)]; [|apply get_model_inv in H1 as (? & _ & [=] & _)].
+  apply get_model_inv in H1 as (x' & Hx & [= <-] & ->).
+  apply wbind_inv in H as [(w0 & w1 & H1 & H) | (e0 & H1 & _)]; [|apply wget_inv in H1 as ([=] & _)].
+  apply wget_inv in H1 as ([= ->] & ->).
+  destruct (existsb _ (m_files x)); [apply wfail_inv in H as (_ & ->); exact FI|].
+  set (fid := N.of_nat (List.length (w_files w))) in *.
+  apply wbind_inv in H as [(u & w1 & H1 & H) | (e0 & H1 & _)]; [|discriminate].
+  injection H1 as _ <-.
+  apply wbind_inv in H as [(u2 & w2 & H2 & H) | (e0 & H2 & _)]; [|apply modify_model_inv in H2 as (? & _ & [=] & _)].
+  apply modify_model_inv in H2 as (x0 & Hx0 & _ & ->). cbn in Hx0. assert (x0 = x) by congruence. subst x0.
+  set (x2 := set_mfiles x (m_files x ++ [fid])) in *.
+  match type of H with wbind wget _ ?W = _ => set (w2 := W) in * end.
+  apply wbind_inv in H as [(w0 & w3 & H3 & H) | (e0 & H3 & _)]; [|apply wget_inv in H3 as ([=] & _)].
+  apply wget_inv in H3 as ([= ->] & ->).
+  apply wbind_inv in H as [(o & w3 & H3 & H) | (e0 & H3 & _)]; [|apply wtry_inv in H3 as (? & _ & [=])].
+  apply wret_inv in H as (_ & Ew). subst w3. apply wtry_inv in H3 as (r0 & H3 & _).
+  assert (In x (w_models w)) as Hxin by (eapply nth_opt_In; eauto).
+  pose proof (FI x Hxin) as FIx.
+  assert (forall j, w_nodes w2 j = w_nodes w j) as Hn2 by reflexivity.
+  assert (same_tree w w2) as ST.
+  { repeat split; auto. unfold roots, w2. cbn. apply list_set_map. intros y Hy. rewrite <- nth_opt_error in Hy.
+    assert (y = x) by congruence. subst. reflexivity. }
+  assert (Core w2) as C2 by (eapply Core_same_tree; eauto).
+  assert (In x2 (w_models w2)) as Hx2 by (unfold w2; cbn; eapply list_set_in; eauto).
+  assert (In fid (m_files x2)) as Hfid by (unfold x2; cbn; apply in_or_app; right; cbn; auto).
+  assert (forall y, In y (w_models w2) -> m_root y <> m_root x2 -> FilesInvM T w2 y) as Others.
+  { intros y Hy Hne. unfold w2 in Hy. cbn in Hy. apply in_list_set_pos in Hy as [->|(j & Hj & Hy)]; [congruence|].
+    apply (inv_more_files w w2 y y); auto; try apply incl_refl. apply FI. eapply nth_error_In; eauto. }
+  assert (incl (m_files x) (m_files x2)) as Hincl by (intros g Hg; unfold x2; cbn; apply in_or_app; left; exact Hg).
+  destruct (m_files x) as [|g0 fs] eqn:Hfiles.
+  2:{ (* the model already has files *)
+      assert (FilesInvM T w2 x2) as FI2.
+      { apply (inv_more_files w w2 x x2); auto.
+        - rewrite Hfiles. exact Hincl.
+        - intros _. congruence. }
+      destruct (atfr_spec x2 fid (fuel_of w2) (m_root x) w2 r0 w' None C2) as (FI' & U'); auto.
+      - constructor. destruct (root_node _ _ C Hxin) as (rn & k & Hrn & _). exists rn. exact Hrn.
+      - apply hole_of_inv. exact FI2.
+      - discriminate.
+      - intros h [=].
+      - apply (under_all' w2 w' x2); auto. }
+  (* the first file of the model: nobody has a set yet *)
+  assert (forall i n, Reach w (m_root x) i -> w_nodes w i = Some n -> n_files n = []) as Empty.
+  { intros i n Hr Hn. pose proof (fi_sub _ _ _ FIx i n Hr Hn) as Hi. rewrite Hfiles in Hi.
+    destruct (n_files n) as [|g l]; auto. exfalso. apply (Hi g). left. reflexivity. }
+  assert (forall i s, Reach w (m_root x) i -> ~ Eff w i s) as NoEff.
+  { intros i s Hr He. destruct (Eff_owner _ _ _ He) as (a & na & Ha & Hna & Hs & Hne).
+    apply Hne. rewrite <- Hs. apply (Empty a na); auto. eapply reach_ancs; eauto. }
+  destruct (root_node _ _ C Hxin) as (rn & k & Hrn & Hrp).
+  assert (Reach w (m_root x) (m_root x)) as Hrr by (constructor; exists rn; auto).
+  unfold fuel_of in H3. rewrite atfr_unfold in H3.
+  apply wbind_inv in H3 as [(fm & w3 & H4 & H3) | (e0 & H4 & _)]; [|apply wtry_inv in H4 as (? & _ & [=])].
+  apply wtry_inv in H4 as (r1 & H4 & E1). injection E1 as ->.
+  destruct r1 as [[loc s]|e1].
+  { exfalso. destruct (file_membership_spec _ _ _ _ _ H4) as (_ & He & _).
+    eapply NoEff; eauto. eapply nodes_eff; [|exact He]. intros j. reflexivity. }
+  assert (w3 = w2) as -> by (refine ((_ : ro (file_membership (m_root x))) _ _ _ H4); ro_tac). clear H4.
+  cbn [set_mem existsb] in H3.
+  apply wbind_inv in H3 as [(n & w3 & H4 & H3) | (e0 & H4 & _)]; [|apply get_node_inv in H4 as (? & _ & [=] & _)].
+  apply get_node_inv in H4 as (n' & Hn & [= <-] & ->). rewrite Hn2 in Hn. assert (n = rn) by congruence. subst n.
+  apply wbind_inv in H3 as [(sp & w3 & H4 & H3) | (e0 & H4 & _)]; [|apply wl_inv in H4 as (? & _ & [=] & _)].
+  apply wl_inv in H4 as (sp' & Hsp & [= <-] & ->).
+  apply wbind_inv in H3 as [(u3 & w3 & H4 & H3) | (e0 & H4 & _)].
+  2:{ exfalso. destruct (negb (sp =? 0)); [|discriminate].
+      assert (forall l w0 e9 w4, kids_loop [] l w0 = Val (ER e9, w4) -> False) as NE.
+      { induction l as [|[c|d] l IHl]; intros w0 e9 w4 Hk; cbn [kids_loop] in Hk; [discriminate| |eauto].
+        apply wbind_inv in Hk as [(? & ? & _ & Hk) | (? & Hk & _)]; [eauto|].
+        apply modify_node_wset in Hk as (? & _ & [=] & _). }
+      eapply NE; eauto. }
+  assert (w_next w3 = w_next w2 /\ w_models w3 = w_models w2 /\ w_files w3 = w_files w2 /\ forall i, w_nodes w3 i = w_nodes w2 i)
+    as E3.
+  { destruct (negb (sp =? 0)).
+    - eapply kids_loop_nil; eauto. intros c cn Hc Hcn. rewrite Hn2 in Hcn. apply (Empty c cn); auto.
+      apply (R_kid w (m_root x) (m_root x) c); auto. exists rn. split; auto.
+    - apply wret_inv in H4 as (_ & ->). auto. }
+  clear H4. destruct E3 as (N3 & M3 & F3 & Hn3).
+  apply wbind_inv in H3 as [(ps & w4 & H4 & H3) | (e0 & H4 & _)].
+  2:{ exfalso. apply parent_splittable_spec in H4 as (_ & [(Hp & _)|[(m0 & _ & [=])|(p & pn & sv & Hp & _)]]); congruence. }
+  apply parent_splittable_spec in H4 as (-> & [(Hp & _)|[(m0 & _ & [= ->])|(p & pn & sv & Hp & _)]]); try congruence.
+  cbn [orb] in H3.
+  apply wbind_inv in H3 as [(u4 & w4 & H4 & H3) | (e0 & H4 & _)]; [|apply modify_node_wset in H4 as (? & _ & [=] & _)].
+  apply modify_files_fset in H4 as (_ & -> & _).
+  unfold parent_of in H3. rewrite Hrp in H3.
+  apply wbind_inv in H3 as [(p & w4 & H4 & H3) | (e0 & H4 & _)]; [|discriminate].
+  apply wret_inv in H4 as ([= ->] & ->). apply wret_inv in H3 as (_ & ->).
+  cbn [set_add].
+  (* the resulting world *)
+  set (w4 := fset w3 (m_root x) [fid]).
+  assert (w_nodes w3 (m_root x) = Some rn) as Hrn3 by (rewrite Hn3, Hn2; auto).
+  assert (forall i, i <> m_root x -> w_nodes w4 i = w_nodes w i) as Hoth by (intros i Hi; unfold w4; rewrite fset_neq, Hn3, Hn2; auto).
+  assert (w_nodes w4 (m_root x) = Some (set_files rn [fid])) as Hroot4 by (unfold w4; apply fset_eq; auto).
+  assert (weq w2 w3) as E23 by (repeat split; auto).
+  assert (Under w2 w4 (m_root x2)) as U4.
+  { eapply under_trans; [apply under_weq; eauto|]. apply under_fset.
+    apply (reach_same_tree w w3); auto. eapply same_tree_trans; eauto. apply weq_same_tree. auto. }
+  assert (forall i, Reach w4 (m_root x) i -> Reach w (m_root x) i) as RB.
+  { intros i Hi. apply (under_reach _ _ _ _ _ U4) in Hi. eapply reach_same_tree; [apply same_tree_sym; eauto|exact Hi]. }
+  apply (under_all' w2 w4 x2); auto.
+  constructor.
+  - intros i n Hr Hi. destruct (N.eq_dec i (m_root x)) as [->|Hne].
+    + assert (n = set_files rn [fid]) by congruence. subst. cbn. intros g [<-|[]]. exact Hfid.
+    + rewrite Hoth in Hi; auto. assert (n_files n = []) as -> by (apply (Empty i n); auto; apply RB; exact Hr). intros g [].
+  - intros i n p Hr Hi Hf Hp. exfalso. destruct (N.eq_dec i (m_root x)) as [->|Hne].
+    + assert (n = set_files rn [fid]) by congruence. subst. cbn in Hp. congruence.
+    + rewrite Hoth in Hi; auto. apply Hf. apply (Empty i n); auto; apply RB; exact Hr.
+  - intros i n p pn Hr Hi Hf Hp. exfalso. destruct (N.eq_dec i (m_root x)) as [->|Hne].
+    + assert (n = set_files rn [fid]) by congruence. subst. cbn in Hp. congruence.
+    + rewrite Hoth in Hi; auto. apply Hf. apply (Empty i n); auto; apply RB; exact Hr.
+  - intros _ i Hr. exists [fid]. cbn in Hr. induction Hr as [Hr|p c Hp IH Hl].
+    + replace [fid] with (n_files (set_files rn [fid])) by reflexivity. constructor; auto. cbn. discriminate.
+    + destruct (N.eq_dec c (m_root x)) as [->|Hne].
+      * replace [fid] with (n_files (set_files rn [fid])) by reflexivity. constructor; auto. cbn. discriminate.
+      * assert (Core w4) as C4 by (eapply under_core; eauto).
+        destruct (c_up _ C4 _ _ Hl) as (cn & Hcn & Hcp).
+        eapply Eff_up; eauto. rewrite Hoth in Hcn; auto. apply (Empty c cn); auto; apply RB; eapply R_kid; eauto.
+Qed.
+
 End Add.
